@@ -67,6 +67,49 @@ func resolveUpdateAnchors(p *Program) *updateAnchors {
 // rangeLoopOver finds the range loop over slice value s in fn: returns the
 // header block and the element value (load of &s[i]) of the body.
 func rangeLoopOver(fn *ssa.Function, s ssa.Value) (*ssa.BasicBlock, []ssa.Value) {
+	if h, e := rangeLoopOverRange(fn, s); h != nil {
+		return h, e
+	}
+	// an index loop: for i := 0; i < len(s); i++ { ... s[i] ... } (the length may be hoisted into a local)
+	for _, b := range fn.Blocks {
+		if len(latches(b)) == 0 || len(b.Instrs) == 0 {
+			continue
+		}
+		iff, ok := b.Instrs[len(b.Instrs)-1].(*ssa.If)
+		if !ok {
+			continue
+		}
+		bo, ok := iff.Cond.(*ssa.BinOp)
+		if !ok || bo.Op != token.LSS {
+			continue
+		}
+		ls, isLen := lenArg(bo.Y)
+		ctr, isPhi := bo.X.(*ssa.Phi)
+		if !isLen || ls != s || !isPhi || ctr.Block() != b {
+			continue
+		}
+		var elems []ssa.Value
+		for _, bb := range fn.Blocks {
+			for _, in := range bb.Instrs {
+				ia, ok := in.(*ssa.IndexAddr)
+				if !ok || ia.X != s || ia.Index != ssa.Value(ctr) || ia.Referrers() == nil {
+					continue
+				}
+				for _, ref := range *ia.Referrers() {
+					if u, ok := ref.(*ssa.UnOp); ok && u.Op == token.MUL {
+						elems = append(elems, u)
+					}
+				}
+			}
+		}
+		if len(elems) > 0 {
+			return b, elems
+		}
+	}
+	return nil, nil
+}
+
+func rangeLoopOverRange(fn *ssa.Function, s ssa.Value) (*ssa.BasicBlock, []ssa.Value) {
 	var header *ssa.BasicBlock
 	var elems []ssa.Value
 	for _, b := range fn.Blocks {
